@@ -257,7 +257,7 @@ CORPUS_RPC = [
     (1, 'present', b'\xff\xfe\x80abc', [('readLog', True, 0, 0), ('readProcessStdoutLog', True, 1, 3), ('tailProcessStderrLog', True, 0, 4)]),
     (1, 'present', '€€'.encode(), [('readProcessStdoutLog', True, 1, 4), ('tailProcessStdoutLog', True, 0, 5), ('tailProcessStdoutLog', True, 0, 2)]),
     (1, 'present', 'x\U0001f600y'.encode(), [('readLog', True, 2, 2), ('readLog', True, -3, 0), ('tailProcessLog', True, 0, 3)]),
-    # open findings F25 / F26: control characters and CR through the XML-RPC transport
+    # open findings F37 / F38: control characters and CR through the XML-RPC transport
     (1, 'present', b'a\x1bb', [('readProcessStdoutLog', True, 0, 0), ('tailProcessStdoutLog', True, 0, 3)]),
     (1, 'present', b'a\rb', [('readLog', True, 0, 0)]),
 ]
